@@ -814,6 +814,16 @@ fn run_loop(w: &World, st: &[String]) -> String {
 
 // srch <algo> <what> <root> <transpose> <target|-> [method...]
 fn run_search(w: &World, st: &[String]) -> String {
+    // `srch ... then <op>`: the SAME configured search object is run, the graph is changed (or the object re-targeted),
+    // and the object is run again
+    let (st, then_op): (&[String], Option<&[String]>) = match st.iter().position(|t| t == "then") {
+        Some(i) => (&st[..i], Some(&st[i + 1..])),
+        None => (st, None),
+    };
+    let retarget_key: u64 = match then_op {
+        Some(op) if op[0] == "retarget" => pu64(&op[1]),
+        _ => 0,
+    };
     let algo = st[1].as_str();
     let what = st[2].as_str();
     let root = w.nodes.borrow()[pusize(&st[3])].clone();
@@ -833,7 +843,15 @@ fn run_search(w: &World, st: &[String]) -> String {
             macro_rules! again {
                 ($first:expr, $second:expr) => {{
                     let first = $first;
-                    if meth == Meth::None {
+                    if let Some(op) = then_op {
+                        if op[0] == "retarget" {
+                            b = b.target(&retarget_key);
+                        } else {
+                            let _ = exec_node_step(w, op);
+                        }
+                        let second = $second;
+                        format!("{} THEN {}", first, second)
+                    } else if meth == Meth::None {
                         let second = $second;
                         if second != first {
                             format!("{} REUSED-OBJECT-ANSWERS {}", first, second)
@@ -924,7 +942,11 @@ fn run_search(w: &World, st: &[String]) -> String {
                 };
             }
             let first = once!();
-            if meth == Meth::None {
+            if let Some(op) = then_op {
+                let _ = exec_node_step(w, op);
+                let second = once!();
+                format!("{} THEN {}", first, second)
+            } else if meth == Meth::None {
                 let second = once!();
                 if second != first {
                     format!("{} REUSED-OBJECT-ANSWERS {}", first, second)
